@@ -89,46 +89,25 @@ func extraC19(c *Ctx, r *Report) {
 		return
 	}
 	cas, clamp, plainAddNeg := false, false, false
-	eachInstr(fn, func(in ssa.Instruction) {
-		if cc := getCall(in); cc != nil {
-			ci := describeCall(cc)
-			if ci.Pkg == "sync/atomic" && strings.HasPrefix(ci.Name, "CompareAndSwap") && isField(cc.Args[0], "internal/adapter/stats", "endpointData", "activeConnections") {
-				cas = true
-				// the new value is a phi of (computed, 0) guarded by computed < 0
-				if phi, ok := cc.Args[2].(*ssa.Phi); ok {
-					for _, e := range phi.Edges {
-						if k, ok := constInt(e); ok && k == 0 {
-							clamp = true
-						}
-					}
-				}
-				// or the builtin: max(computed, 0)
-				if bc, ok := cc.Args[2].(*ssa.Call); ok {
-					if bi, ok := bc.Call.Value.(*ssa.Builtin); ok && bi.Name() == "max" {
-						for _, a := range bc.Call.Args {
-							if k, ok := constInt(a); ok && k == 0 {
-								clamp = true
-							}
-						}
-					}
-				}
-			}
-			if ci.Pkg == "sync/atomic" && strings.HasPrefix(ci.Name, "Add") && isField(cc.Args[0], "internal/adapter/stats", "endpointData", "activeConnections") {
-				// an Add is fine only under delta > 0
-				pos := false
-				for _, cf := range normFacts(condFacts(in.Block())) {
-					if bo, ok := cf.Cond.(*ssa.BinOp); ok && bo.Op == token.GTR && cf.True {
-						if k, ok := constInt(bo.Y); ok && k == 0 {
-							pos = true
-						}
-					}
-				}
-				if !pos {
-					plainAddNeg = true
-				}
-			}
+	// the gauge, or the parameter of a helper that is handed its address (`releaseConnections(&data.activeConnections, d)`)
+	gaugeArg := func(v ssa.Value) bool {
+		if isField(v, "internal/adapter/stats", "endpointData", "activeConnections") {
+			return true
 		}
-	})
+		if p, ok := v.(*ssa.Parameter); ok {
+			bs := paramBindings[p]
+			for _, b := range bs {
+				if !isField(b, "internal/adapter/stats", "endpointData", "activeConnections") {
+					return false
+				}
+			}
+			return len(bs) > 0
+		}
+		return false
+	}
+	for _, g := range withHelpers(fn, 2) {
+		scanGauge(g, gaugeArg, &cas, &clamp, &plainAddNeg)
+	}
 	key := fname(fn) + ":gauge-clamped"
 	if cas && clamp && !plainAddNeg {
 		r.OK("C19-R8", key, fn.Pos(), "decrement = CAS loop with the new value clamped at 0; plain Add only for positive deltas")
@@ -791,4 +770,50 @@ func stripLoad(v ssa.Value) ssa.Value {
 		return ld.X
 	}
 	return v
+}
+
+// scanGauge: the CAS / Add operations on the connection gauge in one function (see extraC19).
+func scanGauge(fn *ssa.Function, gaugeArg func(ssa.Value) bool, cas, clamp, plainAddNeg *bool) {
+	eachInstr(fn, func(in ssa.Instruction) {
+		cc := getCall(in)
+		if cc == nil || len(cc.Args) == 0 {
+			return
+		}
+		ci := describeCall(cc)
+		if ci.Pkg == "sync/atomic" && strings.HasPrefix(ci.Name, "CompareAndSwap") && len(cc.Args) >= 3 && gaugeArg(cc.Args[0]) {
+			*cas = true
+			// the new value is a phi of (computed, 0) guarded by computed < 0
+			if phi, ok := cc.Args[2].(*ssa.Phi); ok {
+				for _, e := range phi.Edges {
+					if k, ok := constInt(e); ok && k == 0 {
+						*clamp = true
+					}
+				}
+			}
+			// or the builtin: max(computed, 0)
+			if bc, ok := cc.Args[2].(*ssa.Call); ok {
+				if bi, ok := bc.Call.Value.(*ssa.Builtin); ok && bi.Name() == "max" {
+					for _, a := range bc.Call.Args {
+						if k, ok := constInt(a); ok && k == 0 {
+							*clamp = true
+						}
+					}
+				}
+			}
+		}
+		if ci.Pkg == "sync/atomic" && strings.HasPrefix(ci.Name, "Add") && gaugeArg(cc.Args[0]) {
+			// an Add is fine only under delta > 0
+			pos := false
+			for _, cf := range normFacts(condFacts(in.Block())) {
+				if bo, ok := cf.Cond.(*ssa.BinOp); ok && bo.Op == token.GTR && cf.True {
+					if k, ok := constInt(bo.Y); ok && k == 0 {
+						pos = true
+					}
+				}
+			}
+			if !pos {
+				*plainAddNeg = true
+			}
+		}
+	})
 }
